@@ -32,8 +32,8 @@ def rule_quant(E, R):
                     clo = closure_of(t["args"][0]) if t.get("args") else None
                     ident = bool(clo) and local_name(tail(clo["body"])) in pat_bindings({"k": "x", "params": clo["params"]})
                     root, ch = chain(t)
-                    tbl[last_seg(v)] = (t["m"], ident, local_name(root), [x["m"] for x in ch[:-1]])
-        want = {"Any": ("any", True, "values", ["into_iter"]), "All": ("all", True, "values", ["into_iter"])}
+                    tbl[last_seg(v)] = (t["m"], ident, "param#1" if is_param(root, h, 1) else local_name(root), [x["m"] for x in ch[:-1]])
+        want = {"Any": ("any", True, "param#1", ["into_iter"]), "All": ("all", True, "param#1", ["into_iter"])}
         R.check(tbl == want, rule, fn, "any = exists, all = for-all over every element (so all of an empty result is true)", str(tbl), h["span"])
     fa = "ast::logical_expr::QuantifierOp::reduce_lhs_array"
     ha = E.hir(fa)
@@ -42,7 +42,7 @@ def rule_quant(E, R):
         ok = t.get("k") == "MethodCall" and t["m"] == "reduce_bool_iter" and local_name(t["recv"]) == "self"
         if ok:
             root, ch = chain(t["args"][0])
-            ok = local_name(root) == "array" and chain_verdict(ch) == "ok"
+            ok = is_param(root, ha, 1) and chain_verdict(ch) == "ok"
         R.check(ok, rule, fa, "reduces every element of the array, in order", where=ha["span"])
     h = E.hir(LOGIC)
     if not h:
@@ -74,7 +74,11 @@ def rule_quant(E, R):
     for n, st in walk_arms(h["body"]):
         if n.get("k") == "MethodCall" and n["m"] == "reduce_bool_iter" and arm_variants(st, "QuantifierArgExpr") == ["Logical"]:
             root, ch = chain(n["args"][0])
-            ok = chain_verdict(ch) == "ok" and local_name(root) == "vec"
+            vec_names = set()
+            for q in walk(h["body"]):
+                if q.get("k") == "PTupleStruct" and norm(q["res"].get("path", "")).endswith("CompiledExpr::Vec"):
+                    vec_names |= set(pat_bindings(q))
+            ok = chain_verdict(ch) == "ok" and local_name(root) in vec_names
     R.check(ok, rule, LOGIC, "any/all of a mapped comparison reduces the whole element-wise result", where=h["span"])
 
 
@@ -182,7 +186,8 @@ def rule_absent(E, R):
                 if fi:
                     root, ch = chain(fi[0]["args"][0])
                     ms_ = [x["m"] for x in ch]
-                    ok = ms_[:2] == ["iter", "unwrap"] and chain_verdict([x for x in ch if x["m"] != "unwrap"]) == "ok" and local_name(root) == "val"
+                    ok = ms_[:2] == ["iter", "unwrap"] and chain_verdict([x for x in ch if x["m"] != "unwrap"]) == "ok" and \
+                        local_name(root) in closure_param_names(clo, 0)
             R.check(ok, rule, fn, "every element of the container is compared, in iteration order", where=m["sp"])
     else:
         R.cannot(rule, fn, "anchor not found")
@@ -203,7 +208,10 @@ def rule_absent(E, R):
         good = len(fi) == 2
         for x in fi:
             root, ch = chain(x["args"][0])
-            good = good and local_name(root) == "iter" and [y["m"] for y in ch] == ["map"]
+            it_name = let_name(h["body"], lambda i_: norm(i_.get("callee", "")).endswith("MapEachIterator::from_indexes"))
+            it_names = {st_["pat"]["name"] for st_ in exprs(h["body"], "SLet") if "init" in st_ and st_["pat"].get("k") == "PBinding" and
+                        norm(strip(st_["init"]).get("callee", "")).endswith("MapEachIterator::from_indexes")}
+            good = good and local_name(root) in it_names and [y["m"] for y in ch] == ["map"]
         R.check(good, rule, fn, "the result has one entry per element produced by the [*] iterator, in its order", where=h["span"])
     else:
         R.cannot(rule, fn, "anchor not found")
@@ -244,7 +252,7 @@ def rule_absent(E, R):
         if hh:
             t = tail(hh["body"])
             root, ch = chain(t)
-            ok = local_name(root) == "indexes" and [x["m"] for x in ch] == ["iter", "try_fold"] and local_name(ch[1]["args"][0]) == "self"
+            ok = is_param(root, hh, 1) and [x["m"] for x in ch] == ["iter", "try_fold"] and local_name(ch[1]["args"][0]) == "self"
             R.check(ok, rule, fn3, "nested access applies every index in order, stopping at the first missing value", where=hh["span"])
     # maps iterate in ascending key order: BTreeMap
     a = E.adt("lhs_types::map::InnerMap")
